@@ -262,6 +262,9 @@ class Metadata(CbMixin, ProgMixin):
         self._check_parts([self.name])
         self.meta_version = info.get("meta version", 1)
         self.pieces = info.get("pieces", bytes())
+        if isinstance(self.pieces, str):
+            # a hash string that happens to be valid utf-8 is decoded as text
+            self.pieces = self.pieces.encode("utf-8")
         if self.meta_version == 2:
             tree = info["file tree"]
             if list(tree) == [self.name] and "" in tree[self.name]:
@@ -420,7 +423,10 @@ class Metadata(CbMixin, ProgMixin):
             for path, size in paths:
                 if size == length:
                     hasher = HasherV2(path, self.piece_length, True)
-                    if entry["root"] == hasher.root:
+                    root = entry["root"]
+                    if isinstance(root, str):
+                        root = root.encode("utf-8")
+                    if root == hasher.root:
                         dest_path = os.path.join(dest, entry["full"])
                         copypath(path, dest_path)
                         self._update()
